@@ -1,9 +1,9 @@
 ----------------------------- MODULE MC_Program -----------------------------
 (***************************************************************************)
 (* The program state machine of spec/Program.tla explored by TLC from      *)
-(* every configuration (thorough: the complete product, 244 944            *)
+(* every configuration (thorough: the complete product, 1 032 192            *)
 (* configurations; quick: inputs x factor sources completely, crossed with *)
-(* twelve output patterns and the flags by a covering function).  Checked  *)
+(* eighteen output patterns and the flags by a covering function).  Checked  *)
 (* in every state: TerminalOk (C16), NoResultWhenRefused (C19),            *)
 (* ResultsAfterEval, Progress (no stage without successor), and that the   *)
 (* functional form Outcome(cfg) used by the trace specification agrees     *)
@@ -18,19 +18,22 @@ O5(a, b, c, d, e) == [o \in Outputs |-> CASE o = "oc" -> a [] o = "of" -> b [] o
 Patterns == {O5("absent", "absent", "absent", "absent", "absent"), O5("ok", "ok", "ok", "ok", "ok")}
             \cup {[o \in Outputs |-> IF o = x THEN "nodir" ELSE "ok"] : x \in Outputs}
             \cup {[o \in Outputs |-> IF o = x THEN "ok" ELSE "absent"] : x \in Outputs}
+            \* output paths that already hold a document: all of them, and each one alone
+            \cup {O5("over", "over", "over", "over", "over")}
+            \cup {[o \in Outputs |-> IF o = x THEN "over" ELSE "ok"] : x \in Outputs}
 CompsSeq == <<"none", "valid", "missing", "dir", "empty", "metaonly", "remarks", "garbage", "needsfactor">>
 FsrcSeq == <<"none", "loc", "badloc", "file", "filemissing", "filebad", "fileincomplete">>
 IndexOf(q, x) == CHOOSE i \in 1..Len(q) : q[i] = x
 H(c) == IndexOf(CompsSeq, c.comps) + 9 * IndexOf(FsrcSeq, c.fsrc)
-        + 63 * Cardinality({o \in Outputs : c.out[o] = "ok"}) + 7 * Cardinality({o \in Outputs : c.out[o] = "nodir"})
+        + 63 * Cardinality({o \in Outputs : c.out[o] \in Writable}) + 7 * Cardinality({o \in Outputs : c.out[o] = "nodir"})
 QuickInit ==
   /\ cfg \in {c \in [comps : CompsStates, fsrc : FsrcStates, out : Patterns, license : BOOLEAN, lm : BOOLEAN, v : 0..3] :
                 /\ c.lm = (H(c) % 2 = 1) /\ c.v = (H(c) \div 2) % 4
                 /\ (c.license => c.out = O5("ok", "ok", "ok", "ok", "ok"))}
-  /\ pc = "args" /\ written = {} /\ printed = FALSE /\ exit = -1 /\ reported = FALSE
+  /\ pc = "args" /\ written = {} /\ stale = StaleAtStart(cfg) /\ printed = FALSE /\ exit = -1 /\ reported = FALSE
 MCInit == IF Tier = "quick" THEN QuickInit ELSE Init
 MCSpec == MCInit /\ [][Next]_vars
 
-Agrees == ~Running => LET o == Outcome(cfg) IN o.exit = exit /\ o.written = written /\ o.printed = printed /\ o.reported = reported
-Emit == ~Running => PrintT(<<"CASE", ToJson([cfg |-> cfg, expect |-> [exit |-> exit, written |-> written, printed |-> printed]])>>)
+Agrees == ~Running => LET o == Outcome(cfg) IN o.exit = exit /\ o.written = written /\ o.stale = stale /\ o.printed = printed /\ o.reported = reported
+Emit == ~Running => PrintT(<<"CASE", ToJson([cfg |-> cfg, expect |-> [exit |-> exit, written |-> written, stale |-> stale, printed |-> printed]])>>)
 =============================================================================
